@@ -88,6 +88,10 @@ def unhex (s : String) : String :=
     | _ => []
   String.ofList (go (s.toList.drop 1))
 
+def hexOf (s : String) : String :=
+  let d (n : Nat) : Char := if n < 10 then Char.ofNat (48 + n) else Char.ofNat (87 + n)
+  String.ofList (s.toUTF8.toList.flatMap fun b => [d (b.toNat / 16), d (b.toNat % 16)])
+
 def showParsedBase (b : ParsedBase) : String :=
   "ok\t" ++ ",".intercalate b.signature ++ "\t" ++ b.name ++ "\t" ++
     "\t".intercalate (b.conds.map fun p => p.1.show ++ " ## " ++ p.2.show)
@@ -251,6 +255,18 @@ def handle (line : String) : Except String (String × Bool) := do
       let φ ← fm
       let t := text names φ
       pure (t, parseFormulaText t == some (PF.ofFm names φ))
+    | "btext" =>
+      -- the belief-base file `C10_base_roundtrip` speaks about, hex-encoded (it contains line breaks)
+      let sig ← listOf tok
+      let name ← tok
+      let cs ← listOf pcond
+      let pairs := cs.map fun c => (c.cons, c.ante)
+      let t := baseText sig name pairs
+      let ok := match parseBaseText t with
+        | some pb => pb.signature == sig && pb.name == name &&
+            pb.conds == pairs.map fun c => (PF.ofFm sig c.1, PF.ofFm sig c.2)
+        | none => false
+      pure (hexOf t, ok)
     | "pbase" =>
       let h ← tok
       match parseBaseText (unhex h) with
